@@ -23,7 +23,7 @@
     (captured id of a span = its rank among enabled spans): [Capture/LayerSpec.v].
     [reachable]: reachable from the empty storage by valid mutations, the hypothesis of every
     theorem of C17 ([Props/C17.v]). *)
-From TT Require Import Capture.ConcurrentProofs Capture.Queries Capture.QueriesProofs.
+From TT Require Import Capture.ConcurrentProofs Capture.SoloProofs Capture.Queries Capture.QueriesProofs.
 
 (** ** under every schedule the layer completes every callback and stores exactly what the
     specification prescribes.  For every filter, every id assignment and every execution the safe
@@ -126,6 +126,34 @@ Theorem C19_event_parent : forall filter ids p i e,
     ev_parent_id r = option_map (cap_rank filter spans) (attach filter spans (em_lparent_ops (p_ops p) e)).
 Proof. exact storage_event_parent. Qed.
 
+(** ** per-thread projections equal the single-threaded reference.
+    [solo t p] ([Capture/Solo.v]): the execution [p] with the operations of every thread but the main
+    thread (0) and the worker [t] taken out, span names adjusted.  [isolated t p]: [t] names only its
+    own and the main thread's spans, the main thread only its own, and no other thread names a span
+    of [t].  [tview_of t filter ids p]: what the forest of the specification says about the spans and
+    events of [t] - metadata, values in recording order, enter and exit counts, the captured span each
+    is attached to, follows-from edges - with every span named by (owner, rank among the owner's
+    spans) instead of by creation index.
+    Whatever the other workers do and however the scheduler interleaves them, the view of a worker
+    is the view in its solo execution. *)
+Theorem C19_worker_view_is_solo_view : forall (t : nat) (filter : cs_data -> bool) (ids ids' : list N) (p : prog),
+  wf_prog_b p = true -> wf_prog_b (solo t p) = true -> isolated t p = true ->
+  tview_of t filter ids p = tview_of t filter ids' (solo t p).
+Proof. exact tview_solo. Qed.
+
+(** hence two executions with the same solo execution of [t] - e.g. two interleavings of the same
+    per-thread programs - give [t] the same view *)
+Theorem C19_worker_view_schedule_independent : forall t filter ids ids' p p',
+  wf_prog_b p = true -> wf_prog_b (solo t p) = true -> isolated t p = true ->
+  wf_prog_b p' = true -> isolated t p' = true -> solo t p' = solo t p ->
+  tview_of t filter ids p = tview_of t filter ids' p'.
+Proof.
+  exact (fun t filter ids ids' p p' W S I W' I' E =>
+           eq_trans (tview_solo t filter ids ids p W S I)
+                    (eq_trans (f_equal (tview_of t filter ids) (eq_sym E))
+                              (eq_sym (tview_solo t filter ids' ids p' W' (eq_ind_r (fun q => wf_prog_b q = true) S E) I')))).
+Qed.
+
 (** ** Non-vacuity.  Two worker threads (1 and 2) and the main thread (0).  Main creates a shared
     span (INFO); each worker enters its own span, creates a child with the shared span as explicit
     parent, emits an event inside its own span; worker 1 also enters the shared span.  Two schedules
@@ -175,5 +203,15 @@ Example C19_example :
   = Some ["fib"; "child"; "fib"; "child"; "fib"]%string /\
   option_map (fun st => map (fun r => cs_name (spl_meta (sp_payload r))) (st_spans st))
              (storage_of (layer_run (fun _ => true) [] c19_prog_b))
-  = Some ["fib"; "child"; "child"; "fib"; "fib"]%string.
+  = Some ["fib"; "child"; "child"; "fib"; "fib"]%string /\
+  (* the hypotheses of the non-interference theorem hold for both workers under both schedules, the
+     solo executions coincide, and the views are not empty *)
+  isolated 1 c19_prog_a = true /\ isolated 2 c19_prog_a = true /\
+  isolated 1 c19_prog_b = true /\ isolated 2 c19_prog_b = true /\
+  wf_prog_b (solo 1 c19_prog_a) = true /\ wf_prog_b (solo 2 c19_prog_a) = true /\
+  solo 1 c19_prog_b = solo 1 c19_prog_a /\ solo 2 c19_prog_b = solo 2 c19_prog_a /\
+  isolated 0 c19_prog_a = false /\
+  map (fun e => (cs_name (fst (fst (fst (fst (fst e))))), snd (fst e), snd e))
+      (fst (tview_of 2 (fun _ => true) [] c19_prog_b))
+  = [("child", None, []); ("fib", Some (0, 0), [])]%string%nat.
 Proof. vm_compute. repeat split. Qed.
